@@ -75,6 +75,11 @@ def prepare_lean(theorem_modules, tier, need_driver=True):
         st.translate.update({"struct:" + k: v for k, v in json.loads(out.strip().splitlines()[-1]).items()})
     except Exception:
         st.translate["struct"] = "untranslatable: " + out[-300:]
+    rc, out = sh("python3 harness/translate/gen_rates.py", cwd=ROOT)
+    try:
+        st.translate.update({"rates:" + k: v for k, v in json.loads(out.strip().splitlines()[-1]).items()})
+    except Exception:
+        st.translate["rates"] = "untranslatable: " + out[-300:]
     if os.path.exists(os.path.join(HERE, "translate", "gen_skeleton.py")) and any(m.endswith("C19") for m in theorem_modules):
         rc, out = sh("python3 harness/translate/gen_skeleton.py --lean-root lean", cwd=ROOT)
         st.translate["skeleton"] = out.strip().splitlines()[-1] if out.strip() else "?"
@@ -289,7 +294,7 @@ def run_check(modname, argv):
             "checker_cmd": "cd lean && lake build " + " ".join(mod.THEOREM_FILES) + " && lake env lean <each Props file> (#print axioms)" + (" && lake env leanchecker ..." if tier == "thorough" else ""),
             "trusted_base": getattr(mod, "TRUSTED", []) + ["Lean 4.33 kernel; axioms allowed: propext, Classical.choice, Quot.sound",
                                                           "hand-written Lean model tied to the code by the correspondence below (differential testing)",
-                                                          "harness/jaxfix.py (NumPy-2/JAX compat layer)", "translators harness/translate/gen_tables.py (tables, tableau), gen_arith.py (solver / interpolation formulas), gen_skeleton.py (C19 control skeleton)"],
+                                                          "harness/jaxfix.py (NumPy-2/JAX compat layer)", "translators harness/translate/gen_tables.py (tables, tableau), gen_arith.py (solver / interpolation formulas), gen_struct.py (matching / stratify methods), gen_rates.py (right-hand side array programs), gen_skeleton.py (C19 control skeleton)"],
             "theorems": {m: i["theorems"] for m, i in lean.props.items()},
             "axioms": {m: i["axioms"] for m, i in lean.props.items()},
             "theorem_modules_ok": {m: i["ok"] for m, i in lean.props.items()},
